@@ -125,6 +125,7 @@ func (fx *Facts) errNilness(ap *APath, o ssa.Value) (isNil, isNonNil bool) {
 func checkC06(cx *Ctx, r *Report) {
 	w, fx := cx.W, cx.Fx
 	cx.checkProviderFromStorage(r, kSSO)
+	cx.checkStorageIsTheApplications(r)
 	// request data must not be shared between requests through recycled buffers (R-POOL, see C15)
 	cx.checkPoolEscape(r)
 	r.Clauses = []string{
